@@ -8,6 +8,10 @@ import Psa.Driver.ClaimsIO
 import Psa.Driver.ErrIO
 import Psa.Driver.HistIO
 import Psa.Driver.CodecIO
+import Psa.Driver.JsonIO
+import Psa.Driver.DispatchIO
+import Psa.Driver.GatesIO
+import Psa.Driver.EvIO
 namespace Psa.Driver
 open Psa
 
@@ -66,6 +70,14 @@ def runLine (l : String) : String :=
       | "hist" => opHist args
       | "decv" => opDecv args
       | "enc" => opEnc args
+      | "jenc" => opJenc args
+      | "jdec" => opJdec args
+      | "newclaims" => opNewClaims args
+      | "gates" => opGates args
+      | "ev" => opEv args
+      | "tamper" => opTamper args
+      | "dispatch-cbor" => opDispatchCbor args
+      | "dispatch-json" => opDispatchJson args
       | _ => "bad-op"
     caseNo ++ " " ++ r
   | _ => "bad-line"
